@@ -40,6 +40,9 @@ impl Default for C12 {
             "oracle_change_on_frozen_bank_rejected",
             "deleverage_window_reset",
             "deleverage_limit_hit",
+            "group_configure_judged",
+            "edit_fee_state_judged",
+            "group_roles_changed",
             "deleverage_withdraw_counted",
         ]);
         C12 {
@@ -221,6 +224,72 @@ impl Monitor for C12 {
                                         format!("group {group_key}: withdrawn {} limit {limit}", q_str(&entry.1)), idx));
                                 }
                             }
+                        }
+                    }
+                }
+            }
+            // group_configure: exactly the seven requested role holders and the two leverage caps
+            // (defaults when omitted) are stored; nothing else in the group moves but the
+            // fee-cache timestamp
+            if ix.tag == "group_configure" && ix.data.len() >= 8 + 7 * 32 {
+                let gk = ix.accounts[0].pubkey;
+                if let (Some(g0), Some(g1)) = (model::group_of(a, &gk), model::group_of(b, &gk)) {
+                    let pk = |i: usize| Pubkey::new_from_array(ix.data[8 + 32 * i..8 + 32 * (i + 1)].try_into().unwrap());
+                    let want = [pk(0), pk(1), pk(2), pk(3), pk(4), pk(5), pk(6)];
+                    let got = [g1.admin, g1.emode_admin, g1.delegate_curve_admin, g1.delegate_limit_admin, g1.delegate_emissions_admin, g1.metadata_admin, g1.risk_admin];
+                    self.cov.probe("group_configure_judged");
+                    if [g0.admin, g0.emode_admin, g0.delegate_curve_admin, g0.delegate_limit_admin, g0.delegate_emissions_admin, g0.metadata_admin, g0.risk_admin] != want {
+                        self.cov.probe("group_roles_changed");
+                    }
+                    if got != want {
+                        out.push(viol("C12", "group_configure_stored_other_roles_than_requested", ix.tag,
+                            format!("group {gk}: requested {:?} stored {:?}", want, got), idx));
+                    }
+                    let mut x0 = g0;
+                    let mut x1 = g1;
+                    for x in [&mut x0, &mut x1] {
+                        x.admin = Pubkey::default();
+                        x.emode_admin = Pubkey::default();
+                        x.delegate_curve_admin = Pubkey::default();
+                        x.delegate_limit_admin = Pubkey::default();
+                        x.delegate_emissions_admin = Pubkey::default();
+                        x.metadata_admin = Pubkey::default();
+                        x.risk_admin = Pubkey::default();
+                        x.emode_max_init_leverage = 0;
+                        x.emode_max_maint_leverage = 0;
+                        x.fee_state_cache.last_update = 0;
+                    }
+                    if bytemuck::bytes_of(&x0) != bytemuck::bytes_of(&x1) {
+                        out.push(viol("C12", "group_configure_wrote_outside_remit", ix.tag, format!("group {gk}"), idx));
+                    }
+                }
+            }
+            // edit_global_fee_state: the fee state stores exactly what was requested
+            if ix.tag == "edit_global_fee_state" && ix.data.len() >= 8 + 64 + 8 + 48 {
+                if let Some(f1) = model::fee_state_of(b) {
+                    let d = &ix.data[8..];
+                    let admin = Pubkey::new_from_array(d[0..32].try_into().unwrap());
+                    let wallet = Pubkey::new_from_array(d[32..64].try_into().unwrap());
+                    let flat = u32::from_le_bytes(d[64..68].try_into().unwrap());
+                    let liq_flat = u32::from_le_bytes(d[68..72].try_into().unwrap());
+                    let fixed: [u8; 16] = d[72..88].try_into().unwrap();
+                    let rate: [u8; 16] = d[88..104].try_into().unwrap();
+                    let maxfee: [u8; 16] = d[104..120].try_into().unwrap();
+                    self.cov.probe("edit_fee_state_judged");
+                    if f1.global_fee_admin != admin
+                        || f1.global_fee_wallet != wallet
+                        || f1.bank_init_flat_sol_fee != flat
+                        || f1.liquidation_flat_sol_fee != liq_flat
+                        || f1.program_fee_fixed.value != fixed
+                        || f1.program_fee_rate.value != rate
+                        || f1.liquidation_max_fee.value != maxfee
+                    {
+                        out.push(viol("C12", "edit_fee_state_stored_other_than_requested", ix.tag,
+                            format!("admin {} wallet {}", f1.global_fee_admin, f1.global_fee_wallet), idx));
+                    }
+                    if let Some(f0) = model::fee_state_of(a) {
+                        if bytemuck::bytes_of(&f0.panic_state) != bytemuck::bytes_of(&f1.panic_state) {
+                            out.push(viol("C12", "edit_fee_state_touched_pause_state", ix.tag, String::new(), idx));
                         }
                     }
                 }
